@@ -180,6 +180,10 @@ func (s *faultSink) Write(p []byte) (int, error) {
 			return len(p) / 2, fmt.Errorf("short-%s-%d", s.name, i)
 		case "zero":
 			return 0, fmt.Errorf("zero-%s-%d", s.name, i)
+		case "nilerr":
+			return 0, (*ptrErr)(nil) // an error value whose Error method panics (nil receiver)
+		case "panicerr":
+			return len(p) / 2, panicErr{"sink error text panics"}
 		}
 	}
 	return len(p), nil
@@ -204,6 +208,8 @@ func (s *faultSink) failsAt(i int) (string, bool) {
 			return fmt.Sprintf("short-%s-%d", s.name, i), true
 		case "zero":
 			return fmt.Sprintf("zero-%s-%d", s.name, i), true
+		case "nilerr", "panicerr":
+			return "", true // must be reported, but the text of the report is whatever fmt makes of a panicking Error method
 		}
 	}
 	return "", false
@@ -325,7 +331,16 @@ func c10Check(t interface {
 			if !strings.Contains(rep, "write error") || !strings.HasSuffix(rep, "\n") {
 				t.Fatalf("%s: entry %d: malformed report %q", desc, e, rep)
 			}
+			relaxed := false
 			for _, w := range wantErrs {
+				if w == "" {
+					relaxed = true // a panicking Error method may swallow the texts of the errors combined with it
+				}
+			}
+			for _, w := range wantErrs {
+				if relaxed {
+					break
+				}
 				if !strings.Contains(rep, w) {
 					t.Fatalf("%s: entry %d: report %q does not mention failing destination %s", desc, e, rep, w)
 				}
@@ -377,7 +392,7 @@ func c10Check(t interface {
 	}
 }
 
-var c10Outcomes = []string{"ok", "ok", "err", "short", "zero"}
+var c10Outcomes = []string{"ok", "ok", "ok", "err", "err", "short", "short", "zero", "zero", "nilerr", "panicerr"}
 
 func propC10Sinks(t *rapid.T) {
 	nCores := rapid.IntRange(1, 4).Draw(t, "nCores")
